@@ -13,7 +13,7 @@ REQUIRED_MONITORS = ["decomposition@SD_svalsvec", "pick@FDD_mpe(function, Hermit
 ALL_STATES = ["band clipped by grid start", "band clipped by grid end", "selected frequency between lines", "maximum at band edge candidate",
               "several peaks in band", "non-square spectrum", "2 channels", "8 channels"]
 REQUIRED_STATES = ["band clipped by grid end", "selected frequency between lines", "several peaks in band", "non-square spectrum", "array object refilled in place", "band below 0 Hz while the dominant line of the grid is at Nyquist", "EFDD with cm=2",
-                   "selected frequencies of integer type", "overlapping / repeated selections in one call"]
+                   "selected frequencies of integer type", "overlapping / repeated selections in one call", "EFDD extraction repeated with another DF1"]
 RULE = ("spectral sequences: synthetic Hermitian (sums of rank-one bells with complex shapes + full-rank floor), half spectra from the 'cor' "
         "estimator, spectra of random responses through FDD / FDD_MS / EFDD; DF 1..15 line spacings, selected frequencies anywhere in the grid; "
         "postconditions on every SD_svalsvec and FDD_mpe call; non-trivial = band holds >= 3 lines and sigma1/sigma2 varies by > 1 % in it; "
@@ -280,6 +280,17 @@ def run_classes(ctx, rng):
             freq_, sel_, DF_, out = rec[0]
             ctx.check(sel_ == list(sel) and DF_ == DF1, "efdd:first_stage_arguments", lambda: f"EFDD first stage called with sel={sel_} DF={DF_}, user gave {sel} DF1={DF1}")
             check_pick(ctx, "pick@EFDD first stage", "efdd", np.asarray(e.result.Sy), np.asarray(e.result.freq), sel, DF1, out[0], out[1])
+            # history: the same selection again with another first-stage band only - the pick must be made again in the new band
+            del rec[:]
+            DF1b = float(DF1 * rng.uniform(2.0, 5.0))
+            try:
+                ss.mpe("efdd", sel_freq=list(sel), DF1=DF1b, DF2=3.0, cm=cm)
+            except Exception:  # noqa: BLE001
+                pass
+            ctx.state("EFDD extraction repeated with another DF1")
+            if ctx.check(len(rec) >= 1 and rec[0][2] == DF1b, "efdd:repeated_extraction_keeps_previous_band",
+                         lambda: f"second EFDD.mpe with DF1={DF1b:.4g} (first {DF1:.4g}): first stage called with {[r[2] for r in rec]}"):
+                check_pick(ctx, "pick@EFDD first stage", "efdd_repeat", np.asarray(e.result.Sy), np.asarray(e.result.freq), sel, DF1b, rec[0][3][0], rec[0][3][1])
         # multi setup
         ms = MultiSetup_PreGER(fs, [[0, 1], [1, 0]], [data[:4000, :].copy(), data[4000:, : nch - 1].copy()])
         f = FDD_MS(name="fdd_ms", nxseg=256, method_SD=method)
